@@ -35,6 +35,9 @@ pub fn measure(spec: &Spec, vals: &[f64], fork_at: Option<usize>, drop_orig: boo
 /// `reclone_every` > 0: every that many deliveries the (first) replica is replaced by its own clone and
 /// the original dropped — a clone that carries more than its source would grow without bound.
 pub fn measure_ex(spec: &Spec, vals: &[f64], fork_at: Option<usize>, drop_orig: bool, reclone_every: usize) -> Result<Meas, &'static str> {
+    // once a checkpoint is far beyond the bound there is nothing more to learn, and a leaking window can make
+    // every further update slower
+    let stop_above = 4 * heap_bound(spec) * if fork_at.is_some() && !drop_orig { 2 } else { 1 };
     let l0 = warm_len(spec);
     let reference = match fork_at {
         Some(f) => f + l0,
@@ -102,6 +105,9 @@ pub fn measure_ex(spec: &Spec, vals: &[f64], fork_at: Option<usize>, drop_orig: 
         if n == next_cp {
             points.push((n, alloc::live() - base));
             next_cp *= 2;
+            if alloc::live() - base > stop_above {
+                break;
+            }
         }
     }
     if let Some(v) = a.take() {
